@@ -219,19 +219,19 @@ func (m *model) key() [16]byte {
 // ---------- commands ----------
 
 type cmd struct {
-	S     int    // session
-	Op    string // CREATE DELETE RENAME SUBSCRIBE UNSUBSCRIBE APPEND SELECT EXAMINE CLOSE UNSELECT STORE COPY MOVE EXPUNGE UIDEXPUNGE FETCH SEARCH NOOP
-	Name  string
-	Name2 string
-	UID   bool
-	Set   string
-	Store string   // "+", "-", ""
-	Flags []string // wire form (any case)
+	S      int    // session
+	Op     string // CREATE DELETE RENAME SUBSCRIBE UNSUBSCRIBE APPEND SELECT EXAMINE CLOSE UNSELECT STORE COPY MOVE EXPUNGE UIDEXPUNGE FETCH SEARCH NOOP
+	Name   string
+	Name2  string
+	UID    bool
+	Set    string
+	Store  string   // "+", "-", ""
+	Flags  []string // wire form (any case)
 	Silent bool
-	C     int // corpus index (APPEND)
-	Date  int // index into appendDates
-	Key   string // SEARCH key
-	Leaf  bool   // leaf-only: executed and checked at every state but never extended
+	C      int    // corpus index (APPEND)
+	Date   int    // index into appendDates
+	Key    string // SEARCH key
+	Leaf   bool   // leaf-only: executed and checked at every state but never extended
 }
 
 var appendDates = []string{"10-Mar-2024 13:00:00 +0000", " 9-Mar-2024 23:30:00 -0500", "11-Mar-2024 00:30:00 +0900"}
@@ -296,12 +296,12 @@ func hasFlagStr(flags, f string) bool {
 
 // expectation of one command
 type expect struct {
-	status    string   // "ok" | "fail" | "any"
-	failKeeps bool     // (status any) a failure must leave the state untouched, an OK applies `alt`
-	code      string   // "" | APPENDUID | COPYUID
-	codeBox   *mBox    // mailbox the code talks about
-	srcUIDs   []uint32 // COPYUID: source UIDs (ascending)
-	noMatch   bool     // COPY/MOVE whose set addresses no message
+	status    string      // "ok" | "fail" | "any"
+	failKeeps bool        // (status any) a failure must leave the state untouched, an OK applies `alt`
+	code      string      // "" | APPENDUID | COPYUID
+	codeBox   *mBox       // mailbox the code talks about
+	srcUIDs   []uint32    // COPYUID: source UIDs (ascending)
+	noMatch   bool        // COPY/MOVE whose set addresses no message
 	fetch     []fetchLine // expected untagged FETCH data (leaf FETCH)
 	search    []uint32    // expected SEARCH numbers (leaf SEARCH)
 	hasSearch bool
